@@ -251,9 +251,16 @@ func (v *formatter_) formatContext(collection any) {
 }
 
 func (v *formatter_) formatFloat(float float64) {
+	// The notation requires a fraction in every float and an exponent without
+	// leading zeros (e.g. 1.0E+6 rather than 1E+06).
 	var str = stc.FormatFloat(float, 'G', -1, 64)
-	if !sts.Contains(str, ".") && !sts.Contains(str, "E") {
-		str += ".0"
+	var mantissa, exponent, hasExponent = sts.Cut(str, "E")
+	if !sts.Contains(mantissa, ".") {
+		mantissa += ".0"
+	}
+	str = mantissa
+	if hasExponent {
+		str += "E" + exponent[:1] + sts.TrimLeft(exponent[1:], "0")
 	}
 	v.appendString(str)
 }
